@@ -155,18 +155,22 @@ fn judge(c: &Case, text: &str) -> Option<(String, String)> {
             // the functions added at each level always take &self
             wants.push((format!("d{l}"), expected(c.cc_d, Recv::Const)));
         }
-        if c.placeholders {
-            wants.push(("_vfunc_1".to_string(), "thiscall".to_string()));
-            // trailing placeholders up to the declared size
-            wants.push((format!("_vfunc_{}", 3 + 2 * level), "thiscall".to_string()));
-        }
-        for (field, want) in wants {
-            let got = abi_of(&field);
+        for (field, want) in &wants {
+            let got = abi_of(field);
             if got.as_deref() != Some(want.as_str()) {
-                return Some((
-                    if field.starts_with("_vfunc") { "placeholder_slot_convention".into() } else { "vftable_slot_convention".into() },
-                    format!("{vt}.{field}: expected extern \"{want}\", emitted {got:?}"),
-                ));
+                return Some(("vftable_slot_convention".into(), format!("{vt}.{field}: expected extern \"{want}\", emitted {got:?}")));
+            }
+        }
+        // every other slot is a placeholder (whatever it is called): thiscall; with an index gap and a
+        // declared size there are two of them per level more than the functions
+        let placeholders: Vec<&str> = s.fields.iter().map(|f| f.name.as_str()).filter(|n| !wants.iter().any(|(w, _)| w == n)).collect();
+        if c.placeholders && placeholders.len() < 2 {
+            return Some(("placeholder_slot_convention".into(), format!("{vt}: expected placeholder slots for the index gap and the declared size, fields are {:?}", s.fields.iter().map(|f| &f.name).collect::<Vec<_>>())));
+        }
+        for field in placeholders {
+            let got = abi_of(field);
+            if got.as_deref() != Some("thiscall") {
+                return Some(("placeholder_slot_convention".into(), format!("{vt}.{field}: expected extern \"thiscall\", emitted {got:?}")));
             }
         }
     }
